@@ -21,13 +21,20 @@ import (
 
 type c12Gauge struct {
 	Addr     string
-	Deposit  *big.Int // total deposited for this gauge id
+	Deposit  map[string]*big.Int // total deposited for this gauge id, per denomination
 	Start    time.Time
 	End      time.Time
-	Cum      *big.Int // cumulative release observed so far
+	Cum      map[string]*big.Int // cumulative release observed so far, per denomination
 	Inside   map[string]bool
 	Made     int
 	Finished bool // a reward block after End has been seen
+}
+
+// c12GaugeDenom is one denomination's view of a gauge inside the reward-block oracle.
+type c12GaugeDenom struct {
+	*c12Gauge
+	Deposit *big.Int
+	Cum     *big.Int
 }
 
 type c12World struct {
@@ -37,6 +44,16 @@ type c12World struct {
 }
 
 const c12CheckWindow = 2
+
+var c12Denoms = []string{"ujkl", "uatom"}
+
+func c12Zero() map[string]*big.Int {
+	return map[string]*big.Int{"ujkl": new(big.Int), "uatom": new(big.Int)}
+}
+
+func c12Show(m map[string]*big.Int) string {
+	return fmt.Sprintf("%sujkl,%suatom", m["ujkl"], m["uatom"])
+}
 
 func newC12World(c *chain.Chain) *c12World {
 	w := &c12World{storWorld: newStorWorld(c, 2), gauges: map[string]*c12Gauge{}}
@@ -50,21 +67,27 @@ func (w *c12World) observeNewGauges(before map[string]storagetypes.PaymentGauge,
 	balAfter := w.f.Snapshot()
 	for _, a := range sortedGaugeKeys(after) {
 		g := after[a]
-		funded := balAfter.Get(a, "ujkl").Sub(balBefore.Get(a, "ujkl")).BigInt()
+		funded, any := c12Zero(), false
+		for _, d := range c12Denoms {
+			funded[d] = balAfter.Get(a, d).Sub(balBefore.Get(a, d)).BigInt()
+			any = any || funded[d].Sign() > 0
+		}
 		if mg, ok := w.gauges[a]; ok {
-			if funded.Sign() > 0 { // same id created again in the same block: deposits add up
-				mg.Deposit.Add(mg.Deposit, funded)
+			if any { // same id created again in the same block: deposits add up
+				for _, d := range c12Denoms {
+					mg.Deposit[d].Add(mg.Deposit[d], funded[d])
+				}
 				mg.Made++
-				w.logf("gauge %s funded again (+%s), deposit now %s", a[:10], funded, mg.Deposit)
+				w.logf("gauge %s funded again (+%s), deposit now %s", a[:10], c12Show(funded), c12Show(mg.Deposit))
 			}
 			continue
 		}
 		if _, existed := before[a]; existed {
 			continue
 		}
-		w.gauges[a] = &c12Gauge{Addr: a, Deposit: new(big.Int).Set(funded), Start: g.Start, End: g.End, Cum: new(big.Int), Inside: map[string]bool{}, Made: 1}
+		w.gauges[a] = &c12Gauge{Addr: a, Deposit: funded, Start: g.Start, End: g.End, Cum: c12Zero(), Inside: map[string]bool{}, Made: 1}
 		w.order = append(w.order, a)
-		w.logf("gauge %s created: recorded %s, funded %s, %s .. %s", a[:10], g.Coins, funded, g.Start.Format(time.RFC3339Nano), g.End.Format(time.RFC3339Nano))
+		w.logf("gauge %s created: recorded %s, funded %s, %s .. %s", a[:10], g.Coins, c12Show(funded), g.Start.Format(time.RFC3339Nano), g.End.Format(time.RFC3339Nano))
 	}
 }
 
@@ -87,8 +110,13 @@ func sortedGaugeKeys(m map[string]storagetypes.PaymentGauge) []string {
 
 // keeperGauge mirrors exactly the calls BuyStorage makes (payer -> module, NewGauge, module -> gauge account).
 func (w *c12World) keeperGauge(payer chain.Account, amount int64, dur time.Duration) {
+	w.keeperGaugeCoins(payer, sdk.NewCoins(sdk.NewInt64Coin("ujkl", amount)), dur)
+}
+
+// keeperGaugeCoins: the same calls with a deposit in one or two denominations (NewGauge takes sdk.Coins;
+// no message creates a two-denomination gauge, the keeper API and a genesis file can).
+func (w *c12World) keeperGaugeCoins(payer chain.Account, coins sdk.Coins, dur time.Duration) {
 	before, balBefore := w.gaugeRecords(), w.f.Snapshot()
-	coins := sdk.NewCoins(sdk.NewInt64Coin("ujkl", amount))
 	ctx, write := w.f.Ctx.CacheContext()
 	if err := w.c.App.BankKeeper.SendCoinsFromAccountToModule(ctx, payer.Addr, storagetypes.ModuleName, coins); err != nil {
 		w.logf("keeper-level gauge: payer cannot pay %s: %v", coins, err)
@@ -99,7 +127,7 @@ func (w *c12World) keeperGauge(payer chain.Account, amount int64, dur time.Durat
 	must(err)
 	must(w.c.App.BankKeeper.SendCoinsFromModuleToAccount(ctx, storagetypes.ModuleName, acc, coins))
 	write()
-	w.logf("keeper-level gauge amount=%d dur=%s", amount, dur)
+	w.logf("keeper-level gauge coins=%s dur=%s", coins, dur)
 	w.observeNewGauges(before, balBefore)
 }
 
@@ -143,59 +171,65 @@ func (w *c12World) rewardBlock(dt time.Duration) (string, string) {
 	}
 	balAfter := w.f.Snapshot()
 	w.logf("reward block at +%s (t=%s)", dt, t.Format(time.RFC3339Nano))
-	sumInc := new(big.Int)
+	sumIncs := c12Zero()
 	for _, a := range w.order {
-		g := w.gauges[a]
-		bal := balAfter.Get(a, "ujkl").BigInt()
-		cum := new(big.Int).Sub(g.Deposit, bal)
-		inc := new(big.Int).Sub(cum, g.Cum)
-		sumInc.Add(sumInc, inc)
-		shape := "single"
-		if g.Made > 1 {
-			shape = "same-height-same-end-same-coins"
+		for _, denom := range c12Denoms {
+			g := &c12GaugeDenom{w.gauges[a], w.gauges[a].Deposit[denom], w.gauges[a].Cum[denom]}
+			sumInc := sumIncs[denom]
+			bal := balAfter.Get(a, denom).BigInt()
+			cum := new(big.Int).Sub(g.Deposit, bal)
+			inc := new(big.Int).Sub(cum, g.Cum)
+			sumInc.Add(sumInc, inc)
+			a := a[:10] + "/" + denom
+			shape := "single"
+			if g.Made > 1 {
+				shape = "same-height-same-end-same-coins"
+			}
+			if inc.Sign() < 0 {
+				return "C12/decreasing", fmt.Sprintf("gauge %s: cumulative release went from %s to %s", a, g.Cum, cum)
+			}
+			if cum.Cmp(g.Deposit) > 0 {
+				return "C12/over-release", fmt.Sprintf("gauge %s released %s of a deposit of %s", a, cum, g.Deposit)
+			}
+			switch {
+			case t.Before(g.Start):
+				if inc.Sign() != 0 {
+					return "C12/release-before-start", fmt.Sprintf("gauge %s released %s before its start", a, inc)
+				}
+			case t.After(g.End):
+				if inc.Sign() != 0 {
+					return "C12/release-after-end", fmt.Sprintf("gauge %s (end %s) released %s at %s", a, g.End.Format(time.RFC3339Nano), inc, t.Format(time.RFC3339Nano))
+				}
+				defer func(g *c12Gauge) { g.Finished = true }(g.c12Gauge)
+			default:
+				if g.Finished {
+					return "C12/harness", "time went backwards"
+				}
+				total := usec(g.End.Sub(g.Start))
+				left := usec(g.End.Sub(t))
+				if total.Sign() <= 0 {
+					break // zero-length (in whole microseconds) gauges are removed unreleased
+				}
+				elapsed := new(big.Int).Sub(total, left)
+				want := new(big.Int).Mul(g.Deposit, elapsed)
+				want.Quo(want, total)
+				d := new(big.Int).Sub(cum, want)
+				if d.CmpAbs(big.NewInt(1)) > 0 {
+					return "C12/linear-release/" + shape, fmt.Sprintf("gauge %s deposit %s, elapsed %s of %s us: cumulative release %s, pro-rata amount %s", a, g.Deposit, elapsed, total, cum, want)
+				}
+				if elapsed.Sign() > 0 && left.Sign() > 0 {
+					g.Inside[elapsed.String()] = true
+				}
+			}
+			g.c12Gauge.Cum[denom] = cum
 		}
-		if inc.Sign() < 0 {
-			return "C12/decreasing", fmt.Sprintf("gauge %s: cumulative release went from %s to %s", a[:10], g.Cum, cum)
-		}
-		if cum.Cmp(g.Deposit) > 0 {
-			return "C12/over-release", fmt.Sprintf("gauge %s released %s of a deposit of %s", a[:10], cum, g.Deposit)
-		}
-		switch {
-		case t.Before(g.Start):
-			if inc.Sign() != 0 {
-				return "C12/release-before-start", fmt.Sprintf("gauge %s released %s before its start", a[:10], inc)
-			}
-		case t.After(g.End):
-			if inc.Sign() != 0 {
-				return "C12/release-after-end", fmt.Sprintf("gauge %s (end %s) released %s at %s", a[:10], g.End.Format(time.RFC3339Nano), inc, t.Format(time.RFC3339Nano))
-			}
-			g.Finished = true
-		default:
-			if g.Finished {
-				return "C12/harness", "time went backwards"
-			}
-			total := usec(g.End.Sub(g.Start))
-			left := usec(g.End.Sub(t))
-			if total.Sign() <= 0 {
-				break // zero-length (in whole microseconds) gauges are removed unreleased
-			}
-			elapsed := new(big.Int).Sub(total, left)
-			want := new(big.Int).Mul(g.Deposit, elapsed)
-			want.Quo(want, total)
-			d := new(big.Int).Sub(cum, want)
-			if d.CmpAbs(big.NewInt(1)) > 0 {
-				return "C12/linear-release/" + shape, fmt.Sprintf("gauge %s deposit %s, elapsed %s of %s us: cumulative release %s, pro-rata amount %s", a[:10], g.Deposit, elapsed, total, cum, want)
-			}
-			if elapsed.Sign() > 0 && left.Sign() > 0 {
-				g.Inside[elapsed.String()] = true
-			}
-		}
-		g.Cum = cum
 	}
 	// the reward pool (storage module account; nobody is paid in this world) received exactly the increments
-	modDelta := balAfter.Get(storageModuleAddr, "ujkl").Sub(balBefore.Get(storageModuleAddr, "ujkl")).BigInt()
-	if modDelta.Cmp(sumInc) != 0 {
-		return "C12/pool-credit", fmt.Sprintf("gauges released %s in total, storage module account changed by %s", sumInc, modDelta)
+	for _, denom := range c12Denoms {
+		modDelta := balAfter.Get(storageModuleAddr, denom).Sub(balBefore.Get(storageModuleAddr, denom)).BigInt()
+		if modDelta.Cmp(sumIncs[denom]) != 0 {
+			return "C12/pool-credit", fmt.Sprintf("gauges released %s%s in total, storage module account changed by %s", sumIncs[denom], denom, modDelta)
+		}
 	}
 	for _, d := range balBefore.Diff(balAfter) {
 		if _, isGauge := w.gauges[d.Addr]; !isGauge && d.Addr != storageModuleAddr {
@@ -216,11 +250,11 @@ func (w *c12World) nontrivial() bool {
 
 func TestC12(t *testing.T) {
 	rec := ev.For("C12")
-	rec.Describe("fork-mode schedules: 1-5 concurrently live gauges created by real BuyStorage purchases, pay-once PostFile messages and the same keeper calls BuyStorage makes (amounts 0..1e15 ujkl, durations 1us..10y), including two created at the same height with equal end and coins; reward blocks at generated time increments {0, 1us, 1s, 6s, hours, days, beyond the end}. Oracle per gauge and reward block with big.Int: cumulative release (= deposit - account balance) within 1 of floor(deposit*elapsed_us/total_us), non-decreasing, <= deposit, nothing outside [start,end]; storage module account credited exactly the sum of increments. Non-trivial = >=2 reward blocks strictly inside one gauge's interval at different elapsed fractions; distinct = distinct traces.",
+	rec.Describe("fork-mode schedules: 1-5 concurrently live gauges created by real BuyStorage purchases, pay-once PostFile messages and the same keeper calls BuyStorage makes (amounts 0..1e15 ujkl, a third of them with a second deposit of 1..1e15 uatom in the same gauge, durations 1us..10y), including two created at the same height with equal end and coins; reward blocks at generated time increments {0, 1us, 1s, 6s, hours, days, beyond the end}. Oracle per gauge, denomination and reward block with big.Int: cumulative release (= deposit - account balance) within 1 of floor(deposit*elapsed_us/total_us), non-decreasing, <= deposit, nothing outside [start,end]; storage module account credited exactly the sum of increments. Non-trivial = >=2 reward blocks strictly inside one gauge's interval at different elapsed fractions; distinct = distinct traces.",
 		"no provers exist in this world, so nothing leaves the reward pool in a reward block",
 		"a gauge's remaining balance after its end is never released by the code; only 'nothing more is released' is asserted there",
 		"coin amounts <= 1e15 base units (18-decimal sdk.Dec rounding stays far below one base unit)")
-	c := chain.New(chain.GenesisOpts{NumAccounts: 3, Balance: sdk.NewCoins(sdk.NewInt64Coin("ujkl", 4_000_000_000_000_000))})
+	c := chain.New(chain.GenesisOpts{NumAccounts: 3, Balance: sdk.NewCoins(sdk.NewInt64Coin("ujkl", 4_000_000_000_000_000), sdk.NewInt64Coin("uatom", 4_000_000_000_000_000))})
 	defer c.Close()
 
 	// ---- plain regression replay: two equal purchases by different accounts in one block ----
@@ -258,12 +292,18 @@ func TestC12(t *testing.T) {
 					// differ by less than a microsecond (which would share an id) cannot be produced by any message
 					dur += time.Duration(rapid.Int64Range(0, 999_999).Draw(rt, "us")) * time.Microsecond
 				}
-				w.keeperGauge(payer, amt, dur)
+				coins := sdk.NewCoins(sdk.NewInt64Coin("ujkl", amt))
+				if rapid.IntRange(0, 2).Draw(rt, "secondDenom") == 0 { // a deposit in two denominations, each streams on its own
+					amt2 := rapid.OneOf(rapid.Int64Range(1, 50), rapid.Int64Range(1, 1_000_000_000_000_000)).Draw(rt, "amount2")
+					coins = coins.Add(sdk.NewInt64Coin("uatom", amt2))
+					rec.Count("two-denomination-gauges")
+				}
+				w.keeperGaugeCoins(payer, coins, dur)
 				if rapid.IntRange(0, 3).Draw(rt, "twin") == 0 { // the coincidence the property names
 					if excludeCollision {
 						rec.Exclude("C12/linear-release/same-height-same-end-same-coins")
 					} else {
-						w.keeperGauge(chain.Acc(rapid.IntRange(0, 2).Draw(rt, "payer2")), amt, dur)
+						w.keeperGaugeCoins(chain.Acc(rapid.IntRange(0, 2).Draw(rt, "payer2")), coins, dur)
 						rec.Count("twin-gauges")
 					}
 				}
